@@ -5,7 +5,7 @@ import itertools
 
 import numpy as np
 
-from checks.common import comps, hash_tag, to_sparse
+from checks.common import comps, hash_tag, relayout, to_sparse
 from qmc import gen as G
 from qmc import oracle as O
 from qmc.loader import load
@@ -203,6 +203,16 @@ def run_case(case, seed):
                     fails.append(fail("contract_raised", f"{cls}: {back}", cls=cls, **tags))
                 elif G.from_quat(back).tobytes() != np.ascontiguousarray(A).tobytes():
                     fails.append(fail("round_trip_bitwise", f"class {cls}: real_contract(real_expand(A)) is not bit-identical to A", cls=cls, **tags))
+        if emb in ("real_expand", "cadj"):
+            # the same matrix in other memory layouts (Fortran order, transposed view, strided view)
+            A = fill.quat(m, n, bits=4, lo=-40, hi=40)
+            for lay in ("F", "T", "view"):
+                Aq = relayout(G.to_quat(A), lay)
+                ok, F = call(u.real_expand if emb == "real_expand" else u.quaternion_to_complex_adjoint, Aq)
+                evals += 1
+                nontriv += 1
+                if not ok or not np.array_equal(np.asarray(F), orc(A)):
+                    fails.append(fail("layout", f"input in memory layout {lay}: embedding differs", cls="layout_" + lay, **tags))
         if emb == "real_expand":
             # wrong-shape contraction is rejected
             R = np.zeros((4 * m, 4 * n))
